@@ -7,13 +7,25 @@ from ..core import Workload
 from ..env import ptn
 
 KINDS = ['real', 'complex', 'symmetric', 'zero-padded', 'single-entry', 'hermitian', 'integer-valued', 'mixed-magnitude', 'lower-triangular-storage',
-         'antisym-ij', 'antisym-kl', 'antisym-both', 'sym-ij', 'product-antisym', 'fully-symmetric', 'unit-entries', 'near-equal-entries']
+         'antisym-ij', 'antisym-kl', 'antisym-both', 'sym-ij', 'product-antisym', 'fully-symmetric', 'unit-entries', 'near-equal-entries',
+         'imaginary-vint', 'imaginary-pair', 'imaginary-tkin']
 
 
 def coeffs(rng, L, kind):
     c = lambda *s: rng.normal(size=s) + 1j * rng.normal(size=s)
     if kind == 'real':
         return rng.normal(size=(L, L)), rng.normal(size=(L, L, L, L))
+    if kind in ('imaginary-vint', 'imaginary-pair', 'imaginary-tkin'):
+        # exactly vanishing REAL parts: the whole interaction tensor (i times real integrals), the slice of one orbital pair only, or the hopping matrix
+        t, v = c(L, L), c(L, L, L, L)
+        if kind == 'imaginary-vint':
+            v = 1j * rng.normal(size=(L, L, L, L))
+        elif kind == 'imaginary-tkin':
+            t = 1j * rng.normal(size=(L, L))
+        else:
+            i_, j_ = (int(x) for x in rng.integers(0, L, size=2))
+            v[i_, j_] = 1j * rng.normal(size=(L, L)); v[j_, i_] = 1j * rng.normal(size=(L, L))
+        return t, v
     if kind == 'complex':
         return c(L, L), c(L, L, L, L)
     if kind == 'symmetric':
